@@ -11,7 +11,7 @@ ID = "C04"
 TARGETS = ["Proofs.C04"]
 GEN_PREFIXES = ["clean."]
 THEOREMS = {"Proofs.C04": ["VerifModel.C04." + t for t in [
-    "cleanCond_eq", "textClean_eq", "C04_clean", "C04_textclean", "isValid_iff", "compress_mem",
+    "cleanCond_eq", "textClean_eq", "C04_clean", "C04_textclean", "C04_textclean_keeps", "C04_text_nc_agree", "isValid_iff", "compress_mem",
     "C04_outputs_valid", "C04_all_masked", "C04_nonfinite_clim", "C04_pairwise", "C04_all_missing_nan",
     "validMask_insertRow", "compress_insertAt", "C04_delete_invariance", "C04_delete_invariance_many"]]}
 TRUSTED_BASE = c01.TRUSTED_BASE + [
@@ -33,7 +33,7 @@ LEVEL_TEXT = ("Lean theorems: util.clean maps exactly {masked, NaN, -999, > 1e30
               "member and returns NaN for no pairs. Dataset-level deletion invariance: C04_delete_invariance(_many) — inserting any number of cases with a missing value in some requested column leaves what get_scores hands on unchanged (every non-All axis); also decided on the implementation by the coordinate oracle.")
 TECHNIQUE = "Lean 4 proof (cleaners regenerated from source each run) + differential correspondence + metamorphic oracle"
 NC = ["m", "nan", "-999", "-1999/2", "0", "5/2", xr(1e30), xr(np.nextafter(1e30, 2e30)), xr(1e31), "inf", "-inf", xr(-1e31)]
-TOKENS = ["-999", "-999.0", "-9.99e2", "NA", ".", "nan", "NaN", "inf", "-inf", "abc", "1e3", "1_0", "+5", "0.5", "-999.5", "1e31"]
+TOKENS = ["-999", "-999.0", "-9.99e2", "NA", ".", "nan", "NaN", "inf", "-inf", "abc", "1e3", "1_0", "+5", "0.5", "-999.5", "1e31", "1e30", "9.96921e+36", "-1e31"]
 DET = ["mae", "bias", "rmse", "stderror", "corr", "rankcorr", "kendallcorr", "nsec", "nnsec", "kge", "cmae", "dmb",
        "mbias", "ef", "derror", "alphaindex", "diff", "ratio", "obsstddev", "fcststddev"]
 CONT = ["ets", "threat", "hit", "far", "fa", "miss", "pc", "hss", "kss", "biasfreq", "or", "lor", "yulesq", "edi", "sedi",
@@ -182,7 +182,7 @@ def judge(op, impl_out, spec_out):
         for t, got in zip(a[1].split(","), impl_out.split(",")):
             try:
                 v = float(t)
-                miss = math.isnan(v) or v == -999
+                miss = math.isnan(v) or v == -999 or v > 1e30     # the property's list: -999, NaN, non-numeric, > 1e30
             except ValueError:
                 v, miss = None, True
             if miss != (got == "nan") or (not miss and from_xr(got) != v):
